@@ -27,6 +27,7 @@ import (
 	"os/exec"
 	"path/filepath"
 	"strconv"
+	"strings"
 	"sync"
 	"syscall"
 	"time"
@@ -154,6 +155,53 @@ func childMain(args []string) int {
 				rec.Emit("Closed", nil)
 			}
 			idx = nil
+		case "reopen":
+			// the same process closes the index and opens it again: what the new instance loaded
+			// from the metadata store stays in use for the rest of the process's life
+			if err := idx.Close(); err != nil {
+				fmt.Fprintln(os.Stderr, "close before reopen:", err)
+				return 2
+			}
+			idx, err = bleve.Open(dir)
+			if err != nil {
+				fmt.Fprintln(os.Stderr, "reopen:", err)
+				return 2
+			}
+			sc = bx.AsScorch(idx)
+		default:
+			if strings.HasPrefix(op, "more:") { // n more batches by writer 1
+				n, _ := strconv.Atoi(strings.TrimPrefix(op, "more:"))
+				ids := []string{"a", "b", "c", "d"}
+				for k := 0; k < n; k++ {
+					numMu.Lock()
+					next++
+					bs := sx.BatchSpec{B: next, W: 1, Puts: []string{ids[k%4]}, Dels: []string{}}
+					if k%5 == 4 {
+						bs.Dels = []string{ids[(k+1)%4]}
+					}
+					rec.Emit("Submit", map[string]any{"b": bs.B, "w": 1, "puts": bs.Puts, "dels": bs.Dels})
+					numMu.Unlock()
+					bn := bs.B
+					batch, berr := sx.BuildBatch(idx, bs, func(err error) {
+						if err == nil {
+							rec.Emit("Callback", map[string]any{"b": bn})
+						}
+					})
+					if berr != nil {
+						fmt.Fprintln(os.Stderr, "build:", berr)
+						return 2
+					}
+					// an application value of some size, rewritten now and then (metadata-store page churn)
+					if k%7 == 0 {
+						batch.SetInternal([]byte("pad"), []byte(strings.Repeat(fmt.Sprintf("p%03d.", k), 60)))
+					}
+					if err := idx.Batch(batch); err == nil {
+						rec.Emit("Return", map[string]any{"b": bn})
+					} else {
+						rec.Emit("ReturnErr", map[string]any{"b": bn, "err": err.Error()})
+					}
+				}
+			}
 		}
 	}
 	if idx != nil {
@@ -173,14 +221,14 @@ type runSpec struct {
 }
 
 type runResult struct {
-	Spec      runSpec    `json:"spec"`
-	Records   []any      `json:"records"` // TraceCrash records of this run
-	Hits      int        `json:"hits"`
-	CrashedAt string     `json:"crashed_at"`
-	Killed    bool       `json:"killed"`
-	Unnamed   []string   `json:"unnamed_files"`
+	Spec      runSpec        `json:"spec"`
+	Records   []any          `json:"records"` // TraceCrash records of this run
+	Hits      int            `json:"hits"`
+	CrashedAt string         `json:"crashed_at"`
+	Killed    bool           `json:"killed"`
+	Unnamed   []string       `json:"unnamed_files"`
 	Bolt      []sx.BoltEpoch `json:"bolt"`
-	Err       string     `json:"err,omitempty"`
+	Err       string         `json:"err,omitempty"`
 }
 
 var traceEvents = map[string]bool{"Reset": true, "Submit": true, "IntroSegment": true, "Return": true, "Callback": true, "PersistCommitted": true, "MemMergeEquiv": true}
@@ -390,6 +438,8 @@ func workloads(c *core.Ctx) []sx.Workload {
 	add("safe-1w", 5, 1, true, nil)
 	add("unsafe-2w", 6, 2, false, nil)
 	add("safe-2w-keep3", 5, 2, true, map[string]interface{}{"numSnapshotsToKeep": 3})
+	add("safe-1w-reopen-many", 3, 1, true, nil)
+	out[len(out)-1].Tail = []string{"persist", "reopen", "more:40", "persist", "reopen", "more:40", "persist", "close"}
 	add("safe-4w-slowtake", 12, 4, true, nil)
 	out[len(out)-1].LockPauseUS = 2500
 	if c.Thorough() {
